@@ -231,6 +231,52 @@ pub fn dispatch(f: &[&str]) -> String {
             }
             "ok".into()
         }
+        "hdr.value" => {
+            use lettre::message::header::{HeaderName, HeaderValue, Headers};
+            let (Some(n), Some(v)) = (utf8(unhex(f[1])), utf8(unhex(f[2]))) else { return "invalid-utf8".into() };
+            let Ok(name) = HeaderName::new_from_ascii(n) else { return "bad-name".into() };
+            let mut h = Headers::new();
+            h.insert_raw(HeaderValue::new(name, v));
+            hex(h.to_string().as_bytes())
+        }
+        "hdr.name" => {
+            let Some(n) = utf8(unhex(f[1])) else { return "invalid-utf8".into() };
+            (lettre::message::header::HeaderName::new_from_ascii(n).is_ok() as u8).to_string()
+        }
+        "hdr.mailboxes" => {
+            use lettre::message::header::{self, Headers};
+            use lettre::message::{Mailbox, Mailboxes};
+            let Some(hname) = utf8(unhex(f[1])) else { return "invalid-utf8".into() };
+            let mut mbs = Mailboxes::new();
+            if !f[2].is_empty() {
+                for m in f[2].split(';') {
+                    let p: Vec<&str> = m.split(',').collect();
+                    let name = if p[0] == "!" { None } else { match utf8(unhex(p[0])) { Some(x) => Some(x), None => return "invalid-utf8".into() } };
+                    let Some(e) = utf8(unhex(p[1])) else { return "invalid-utf8".into() };
+                    let Ok(addr) = e.parse::<lettre::Address>() else { return "bad-address".into() };
+                    mbs.push(Mailbox::new(name, addr));
+                }
+            }
+            let mut h = Headers::new();
+            match hname.as_str() {
+                "To" => h.set(header::To::from(mbs)),
+                "From" => h.set(header::From::from(mbs)),
+                "Cc" => h.set(header::Cc::from(mbs)),
+                "Bcc" => h.set(header::Bcc::from(mbs)),
+                "Reply-To" => h.set(header::ReplyTo::from(mbs)),
+                "Sender" => match mbs.into_single() { Some(m) => h.set(header::Sender::from(m)), None => return "empty".into() },
+                _ => return "bad-header".into(),
+            }
+            hex(h.to_string().as_bytes())
+        }
+        "hdr.cdisp" => {
+            use lettre::message::header::{ContentDisposition, Headers};
+            let (Some(kind), Some(fname)) = (utf8(unhex(f[1])), utf8(unhex(f[2]))) else { return "invalid-utf8".into() };
+            let cd = if kind == "attachment" { ContentDisposition::attachment(&fname) } else { ContentDisposition::inline_with_name(&fname) };
+            let mut h = Headers::new();
+            h.set(cd);
+            hex(h.to_string().as_bytes())
+        }
         other => format!("UNKNOWN-FN {}", other),
     }
 }
